@@ -38,6 +38,12 @@ type event struct {
 		Templating   json.RawMessage `json:"templating"`
 	} `json:"msg"`
 	Value json.RawMessage `json:"value"`
+	// broadcast_created: the evaluated message per language
+	Translations map[string]struct {
+		Text         string   `json:"text"`
+		QuickReplies []string `json:"quick_replies"`
+		Attachments  []string `json:"attachments"`
+	} `json:"translations"`
 }
 
 func oracle(r *scen.Runner, sp *scen.Sprint) *harn.Failure {
@@ -99,6 +105,27 @@ func oracle(r *scen.Runner, sp *scen.Sprint) *harn.Failure {
 			}
 			if !utf8.ValidString(e.Msg.Text) {
 				return harn.Failf("msg-valid-utf8", "sprint %d: message text is not valid UTF-8", sp.Index)
+			}
+		case "broadcast_created":
+			// a broadcast is evaluated message text, quick replies and attachments like any other message
+			for lang, tr := range e.Translations {
+				if n := utf8.RuneCountInString(tr.Text); n > maxTemplate {
+					return harn.Failf("msg-text-limit", "sprint %d: broadcast text (%s) has %d characters, MaxTemplateChars is %d", sp.Index, lang, n, maxTemplate)
+				} else if n == maxTemplate {
+					reached = append(reached, "template")
+				}
+				for _, q := range tr.QuickReplies {
+					if n := utf8.RuneCountInString(q); n > 64 {
+						return harn.Failf("quick-reply-limit", "sprint %d: broadcast quick reply (%s) has %d characters (max 64)", sp.Index, lang, n)
+					} else if n == 64 {
+						reached = append(reached, "quickreply")
+					}
+				}
+				for _, a := range tr.Attachments {
+					if len(a) > 2048 {
+						return harn.Failf("attachment-limit", "sprint %d: broadcast attachment (%s) has %d bytes (max 2048)", sp.Index, lang, len(a))
+					}
+				}
 			}
 		case "contact_name_changed":
 			if n := utf8.RuneCountInString(e.Name); n > maxField {
